@@ -151,10 +151,10 @@ def main():
         return {"s": sec, "us": 0, "up": up, "rise": rise}
 
     def smp(sec):
-        return {"k": "S", "s": sec, "us": 0, "cls": "-", "lab": "-", "up": 1, "z": 0}
+        return {"k": "S", "s": sec, "us": 0, "cls": "-", "lab": "-", "up": 1, "z": 0, "info": "-"}
 
     def evt(sec, us, cls, lab, z=3):
-        return {"k": "E", "s": sec, "us": us, "cls": cls, "lab": lab, "up": 0, "z": z}
+        return {"k": "E", "s": sec, "us": us, "cls": cls, "lab": lab, "up": 0, "z": z, "info": lab + " 0 Sta"}
     grid = [g(0, -1, 1), g(60, -1, 1), g(120, 1, 1), g(180, 1, -1), g(240, -1, -1), g(300, -1, -1)]
     good = [evt(100, 5, "signal", "AOS"), smp(120), evt(150, 0, "max", "MAX"), smp(180), evt(230, 9, "signal", "LOS")]
     dup = good[:1] + [evt(100, 5, "signal", "AOS")] + good[1:]
@@ -164,7 +164,16 @@ def main():
     blunt = [evt(100, 5, "signal", "AOS", z=900000)] + good[1:]
     name, mc, cl = tlc.wrap("VisibilityTrace", {"ZTol": 2000}, name="MCVisibilityTraceSelf")
     cfg = "INIT TInit\nNEXT TNext\n" + cl + "INVARIANT Report\nCHECK_DEADLOCK FALSE\n"
-    v = verdicts("VisibilityTrace", cfg, {"traces": [{"grid": grid, "stream": st} for st in (good, dup, below, missing, wrong, blunt)]}, extra={name + ".tla": mc}, name=name)
+    def vt(st, picks=(), filtered=None):
+        evs = [{"s": x["s"], "us": x["us"]} for x in st if x["k"] == "E"]
+        return {"grid": grid, "stream": st, "picks": list(picks), "filter": [], "filtered": evs if filtered is None else filtered}
+    pick_ok = [{"info": "LOS 0 Sta", "offset": 0, "found": True, "s": 230, "us": 9}, {"info": "LOS 0 Sta", "offset": 1, "found": False, "s": 0, "us": 0}]
+    pick_bad = [{"info": "AOS 0 Sta", "offset": 0, "found": True, "s": 230, "us": 9}]
+    v = verdicts("VisibilityTrace", cfg, {"traces": [vt(st) for st in (good, dup, below, missing, wrong, blunt)] + [vt(good, pick_ok), vt(good, pick_bad), vt(good, filtered=[])]},
+                 extra={name + ".tla": mc}, name=name)
+    ok &= expect("visibility: find_event selections accepted " + str(v.get(7)), 7 not in v)
+    ok &= expect("visibility: find_event returning another event rejected", "find-event" in v.get(8, ()))
+    ok &= expect("visibility: events_iterator dropping events rejected", "events-iterator" in v.get(9, ()))
     ok &= expect("visibility: a correct stream accepted " + str(v.get(1)), 1 not in v)
     ok &= expect("visibility: a repeated AOS rejected", "aos-los-duplicated" in v.get(2, ()))
     ok &= expect("visibility: a sample below the horizon rejected", "sample-below-horizon-or-repeated" in v.get(3, ()))
